@@ -50,7 +50,7 @@ def corpus_must_compile(ctx, rule="compile"):
             continue
         errs = F.target_errors(fx, c)
         ctx.inst(rule)
-        if errs or not c["has_expansion"]:
+        if errs or (c.get("indexed", True) and not c["has_expansion"]):
             e0 = errs[0] if errs else {"message": "no expansion produced", "spans": []}
             sp = next((s for s in e0["spans"] if s["is_primary"]), None)
             where = f"{sp['file']}:{sp['line_start']}" if sp else c["origin"]
